@@ -213,7 +213,7 @@ def run_shard(spec, rec):
     for i in range(spec["n"]):
         for attempt in range(10):
             prng = random.Random(rng.random())
-            prog = pg.ProgGen(prng, "slots", nclasses=prng.randint(2, 6)).program()
+            prog = pg.ProgGen(prng, "slots", nclasses=prng.randint(2, 6), pyrender=True).program()
             if e1run.reference(prog, "django")[0] == "ok" and e1run.reference(prog, "isolated")[0] == "ok":
                 break
         else:
